@@ -440,3 +440,94 @@ def replay_site(o):
     e_fs = float(max(jnp.max(jnp.abs(f["weights"] - s["weights"])), jnp.max(jnp.abs(f["walkers"][0] - s["walkers"][0]))))
     o["replayed"] = bool(max(e_ov, e_g, e_fs) > 1e-8)
     o["witness"] = dict(o.get("witness") or {}, native=dict(kind=kind, overlaps_vs_scratch=e_ov, greens_vs_scratch=e_g, fast_vs_slow=e_fs))
+
+
+def kinetic(cls_name="propagator_cpmc", norb=2, nchol=2):
+    """C10.cpmc.K: the matrix handed to expm for the one-body half step is -dt/2 K (K = the lattice one-body matrix h1 of that spin) up to a multiple
+    of the identity - for ANY Cholesky vectors and ANY trial density (rdm1) in ham_data / wave_data"""
+    t0 = time.time()
+    H.setup_repo()
+    import jax
+    import jax.numpy as jnp
+    from ad_afqmc import propagation, wavefunctions as wf
+    inp = H.Inputs(21)
+    hh, hl, hr, h0 = inp.declare("h", (2, norb, norb)), inp.declare("l", (nchol, norb, norb)), inp.declare("r", (2, norb, norb)), inp.declare("h0", ())
+    inp.build()
+    sp = inp.sp
+    sym = lambda a: a + np.swapaxes(a, -1, -2)
+    h1, L, rho = sym(hh["V"].s), sym(hl["V"].s), sym(hr["V"].s)
+    cls = getattr(propagation, cls_name)
+    kw = dict(dt=0.01, n_walkers=1)
+    if "nn" in cls_name:
+        kw["neighbors"] = ((0, 1),)
+    prop = cls(**kw)
+    trial = wf.uhf_cpmc(norb, (1, 1))
+    args = []
+
+    def h_expm(it, e, ins):
+        args.append(it.sym(ins[0]))
+        return [it.sym(ins[0])]
+    ham_s = dict(h0=h0["V"].s[()], h1=h1, chol=L.reshape(nchol, norb * norb), ene0=np.array(0.0))
+    ham_x = dict(h0=jnp.asarray(0.1), h1=jnp.zeros((2, norb, norb)), chol=jnp.zeros((nchol, norb * norb)), ene0=jnp.asarray(0.0))
+    fn = lambda hm, wv: prop._build_propagation_intermediates(hm, trial, wv)
+    evaluate(sp, fn, (ham_s, dict(rdm1=rho)), (ham_x, dict(rdm1=jnp.zeros((2, norb, norb)))), intercept={"expm": h_expm})
+    q = front.resolve_method("propagation", cls_name, "_build_propagation_intermediates")
+    name = f"C10.cpmc.K.{cls_name}"
+    if len(args) != 2:
+        A = args[0] if args else None
+        if A is None or A.ndim != 3:
+            return [ob(name, UNDECIDED, kind="bounded", detail=f"{len(args)} expm calls seen", functions=[q])]
+        args = [A[0], A[1]]
+    bad = []
+    half_dt = sp.const(Fraction_(1, 200))
+    for s_ in range(2):
+        D = args[s_] + h1[s_] * half_dt          # should be c * identity
+        for p in range(norb):
+            for r in range(norb):
+                if p != r and not D[p, r].iszero():
+                    bad.append((s_, p, r))
+            if not (D[p, p] - D[0, 0]).iszero():
+                bad.append((s_, p, p))
+    o = ob(name, REFUTED if bad else DISCHARGED, kind="bounded", backend="ring", wall=time.time() - t0, functions=[q], witness_class="mean-field-shift-in-one-body-propagator",
+           detail=("expm argument == -dt/2 h1[s] + c I for any chol / rdm1" if not bad else
+                   f"expm argument differs from -dt/2 h1[s] by a matrix that depends on chol and rdm1 (entries {bad[:4]}): the one-body half step is exp(-dt/2 (K - v0 - v1)) with "
+                   f"v1 = -sum_g tr(L_g rho) L_g, not exp(-dt K/2)"), witness=dict(entries=bad[:8]) if bad else None)
+    if bad:
+        _replay_kinetic(o, cls_name)
+    return [o]
+
+
+def Fraction_(a, b):
+    from fractions import Fraction
+    return Fraction(a, b)
+
+
+def _replay_kinetic(o, cls_name):
+    """native: 2-site Hubbard, non-uniform trial density, Cholesky vectors of the on-site U as produced by the standard set-up: compare exp_h1 with expm(-dt K/2)"""
+    try:
+        from contracts import native
+        native.setup()
+        import jax.numpy as jnp
+        import scipy.linalg as sla
+        from ad_afqmc import propagation, wavefunctions as wf
+        norb, U, dt = 2, 4.0, 0.05
+        K = np.array([[0.0, -1.0], [-1.0, 0.0]])
+        L = np.zeros((norb, norb, norb))
+        for i in range(norb):
+            L[i, i, i] = np.sqrt(U)
+        rho = np.array([np.diag([0.8, 0.2]), np.diag([0.3, 0.7])])           # non-uniform density profile
+        cls = getattr(propagation, cls_name)
+        kw = dict(dt=dt, n_walkers=1)
+        if "nn" in cls_name:
+            kw["neighbors"] = ((0, 1),)
+        prop = cls(**kw)
+        ham = prop._build_propagation_intermediates(dict(h0=0.0, h1=jnp.array([K, K]), chol=jnp.array(L.reshape(norb, -1)), ene0=0.0), wf.uhf_cpmc(norb, (1, 1)), dict(rdm1=jnp.array(rho)))
+        E = np.asarray(ham["exp_h1"])
+        ref = sla.expm(-dt * K / 2)
+        ratio = E[0] / ref
+        dev = float(np.max(np.abs(ratio - ratio[0, 0])))
+        o["replayed"] = bool(dev > 1e-8)
+        o["witness"] = dict(o.get("witness") or {}, native=dict(system="2-site Hubbard U=4, dt=0.05, rdm1 up diag(0.8,0.2) dn diag(0.3,0.7), chol = sqrt(U) e_i e_i^T",
+                                                                exp_h1_up=E[0].tolist(), expm_minus_dt_K_over_2=ref.tolist(), not_proportional_by=dev))
+    except Exception as e:  # noqa
+        o["witness"] = dict(o.get("witness") or {}, native_error=repr(e)[:300])
